@@ -36,6 +36,8 @@ def _returns_nothing(ann: ast.AST) -> bool:
 
 
 def check(chk: Check) -> None:
+    from .sharing import extra
+    extra(chk)
     idx = _index(chk.repo)
     chk.rule("R00.1", "a function annotated to return a value returns one on every path (no silent "
                       "fall-through returning None)")
@@ -147,3 +149,62 @@ def check(chk: Check) -> None:
                 chk.ob("R00.4", "%s:one-shot(%s)" % (q, nm_), len(loads) <= 1, f.loc(x),
                        "%s binds %s to a one-shot iterator (%s) and uses it %d times: every use after the "
                        "first sees it exhausted (empty)" % (q, nm_, unparse(x.value)[:50], len(loads)), 1)
+    _optional_scalars(chk, idx)
+
+
+_FALSY_SCALARS = ("int", "str", "bytes", "float", "bool", "bytearray", "List", "list", "Dict", "dict", "Set",
+                  "set", "Sequence", "Tuple", "tuple", "range")
+
+
+def _optional_scalars(chk: Check, idx) -> None:
+    """R00.5: a parameter declared Optional[<int, str, bytes, a container>] is compared with None,
+    never tested by truthiness: ``if not size`` / ``stop or n`` treats the legal values 0, '' and
+    empty containers as "not given".  Scanned in every function of the modules this property's
+    rules looked at (a helper class added next to them is on the same paths)."""
+    # scope: the functions the property's rules looked at, and the methods of helper classes
+    # those functions instantiate (a reader / cache / view class added next to them is on the
+    # same paths), transitively
+    scope = {q_ for q_ in chk.functions if q_ in idx}
+    by_class = {}
+    for q_, f_ in idx.items():
+        if f_.cls is not None:
+            by_class.setdefault(f_.cls.name, []).append(q_)
+    todo = list(scope)
+    while todo:
+        q_ = todo.pop()
+        for x in walk_no_nested(idx[q_].node):
+            if isinstance(x, ast.Call):
+                nm_ = x.func.id if isinstance(x.func, ast.Name) else x.func.attr if isinstance(x.func, ast.Attribute) else None
+                for q2 in by_class.get(nm_ or "", []):
+                    if q2 not in scope:
+                        scope.add(q2)
+                        todo.append(q2)
+    chk.rule("R00.5", "an Optional scalar/container parameter is tested with 'is None', not by truthiness")
+    for q, f in sorted(idx.items()):
+        if q not in scope:
+            continue
+        a = f.node.args
+        opt = {}
+        for x in a.posonlyargs + a.args + a.kwonlyargs:
+            if x.annotation is None:
+                continue
+            s = unparse(x.annotation)
+            if "Optional[" in s and any(("Optional[%s" % t) in s.replace("typing.", "") or
+                                        ("Optional[typing.%s" % t) in s for t in _FALSY_SCALARS):
+                opt[x.arg] = s
+        if not opt:
+            continue
+        for n in walk_no_nested(f.node):
+            tests = []
+            if isinstance(n, (ast.If, ast.While, ast.IfExp)):
+                tests.append(n.test)
+            elif isinstance(n, ast.BoolOp):
+                tests.extend(n.values[:-1] if not isinstance(getattr(n, "_parent", None), (ast.If, ast.While, ast.IfExp))
+                             else n.values)
+            for t in tests:
+                while isinstance(t, ast.UnaryOp) and isinstance(t.op, ast.Not):
+                    t = t.operand
+                if isinstance(t, ast.Name) and t.id in opt:
+                    chk.ob("R00.5", "%s:truthiness-of-optional(%s)" % (q, t.id), False, f.loc(n),
+                           "%s tests its parameter %s: %s by truthiness (%s): 0 / '' / an empty container is "
+                           "a legal argument and is treated like None" % (q, t.id, opt[t.id], unparse(n)[:50]), 1)
